@@ -66,6 +66,9 @@ def tasks(tier, seed):
         {"fn": "ranges", "kwargs": {"dims": "2d3d"}, "label": "ranges/2d-3d"},
         {"fn": "ranges", "kwargs": {"dims": "3d3d"}, "label": "ranges/3d-3d"},
         {"fn": "ranges_none", "kwargs": {}, "label": "ranges/none"},
+        {"fn": "ranges_open", "kwargs": {"which": "row"}, "label": "ranges/open_result/row"},
+        {"fn": "ranges_open", "kwargs": {"which": "col"}, "label": "ranges/open_result/col"},
+        {"fn": "ranges_open", "kwargs": {"which": "both"}, "label": "ranges/open_result/both"},
     ]
     for f in ("abs", "squared", "chi2"):
         for shape in ([2, 2], [1, 3]):
@@ -171,6 +174,31 @@ def ranges_none():
     except ValueError:
         ok = False
     vx.prove("C11/ranges/none_accepted", ok)
+
+
+def ranges_open(which):
+    """A result range left open in one dimension (no stop: "up to the end of the detector") against an explicit target range: the
+    checker is told the target's size only, so the result's extent in that dimension is the detector's - a number it does not know.
+    Whatever it accepts must have equal extents for every detector size."""
+    u = importlib.import_module("pyxel.calibration.util")
+    t = _rng("t", 2)
+    rows, cols = vx.integer("rows"), vx.integer("cols")
+    det_rows, det_cols = vx.integer("detector_rows"), vx.integer("detector_cols")
+    vx.assume((rows >= 1) & (cols >= 1) & (det_rows >= 1) & (det_cols >= 1), "sizes >= 1")
+    o = _rng("o", 2)
+    open_row, open_col = which in ("row", "both"), which in ("col", "both")
+    try:
+        tr = u.to_fit_range(t)
+        orr = u.FitRange3D(time=slice(None, None), row=slice(None, None) if open_row else slice(o[0], o[1]), col=slice(None, None) if open_col else slice(o[2], o[3]))
+        u.check_fit_ranges(target_fit_range=tr, out_fit_range=orr, rows=rows, cols=cols)
+        ok = True
+    except ValueError:
+        ok = False
+    if ok:
+        ext = [(det_rows if open_row else o[1] - o[0]) == t[1] - t[0], (det_cols if open_col else o[3] - o[2]) == t[3] - t[2]]
+        vx.prove(f"C11/ranges/open_result_equal_extent/{which}", vx.all_of(ext))
+    else:
+        vx.reach("C11/ranges/open_result_refused")
 
 
 # -- H2 ------------------------------------------------------------------------------------------
@@ -548,6 +576,26 @@ def replay(oid, kwargs, model, data):
         if "/equal_extent/" in oid:
             return (ok and not ext), det
         return (ok and not inside), det
+    if fn == "ranges_open":
+        from pyxel.calibration.util import FitRange3D, check_fit_ranges, to_fit_range
+
+        which = kwargs["which"]
+        g = lambda k, d=0: int(model.get(k, d))  # noqa: E731
+        t = [g("t_s0"), g("t_e0"), g("t_s1"), g("t_e1")]
+        o = [g("o_s0"), g("o_e0"), g("o_s1"), g("o_e1")]
+        open_row, open_col = which in ("row", "both"), which in ("col", "both")
+        orr = FitRange3D(time=slice(None, None), row=slice(None, None) if open_row else slice(o[0], o[1]), col=slice(None, None) if open_col else slice(o[2], o[3]))
+        try:
+            check_fit_ranges(target_fit_range=to_fit_range(t), out_fit_range=orr, rows=g("rows", 1), cols=g("cols", 1))
+            ok = True
+        except ValueError:
+            ok = False
+        # the result range is applied to the detector's frame: its open dimension selects the whole detector
+        det = [g("detector_rows", 1), g("detector_cols", 1)]
+        frame = np.zeros((1, det[0], det[1]))
+        sel = frame[orr.time, orr.row, orr.col]
+        tgt_extent = [t[1] - t[0], t[3] - t[2]]
+        return bool(ok and list(sel.shape[1:]) != tgt_extent), {"accepted": ok, "target_range_extent": tgt_extent, "detector": det, "result_region_on_that_detector": list(sel.shape[1:])}
     if fn == "ranges_none":
         from pyxel.calibration.util import FitRange3D, check_fit_ranges, to_fit_range
 
